@@ -331,6 +331,53 @@ Proof.
   eapply consume_ok; [exact Hi2| |exact Hn]. rewrite Ho2. exact Howes.
 Qed.
 
+(* Outputs other than OReady never touch the "readiness checked" flag. *)
+Definition no_ready (o : list out) : bool :=
+  forallb (fun x => match x with OReady => false | _ => true end) o.
+
+Lemma mon_outs_ready c o : forall m, no_ready o = true -> m_ready (mon_outs c m o) = m_ready m.
+Proof.
+  induction o as [|x r IH]; intros m H; cbn [mon_outs]; [reflexivity|].
+  cbn [no_ready forallb] in H. apply andb_true_iff in H as [Hx Hr]. rewrite (IH _ Hr).
+  destruct x; try discriminate; cbn [mon_next]; try reflexivity.
+  - destruct (emitted e r0); reflexivity.
+  - destruct e; try reflexivity. destruct (ctx_told_idle c && m_synced m); reflexivity.
+Qed.
+
+Lemma xstep_no_ready x e x' o : xstep x e = (x', o) -> no_ready o = true.
+Proof.
+  unfold xstep. destruct e as [k|ok tag|].
+  - destruct (x_finished x || is_some (x_pending x)); [intros [= _ <-]; reflexivity|].
+    destruct (enqueue x (x_dig x, StUpd k)). intros [= _ <-]. reflexivity.
+  - destruct (x_finished x || is_some (x_pending x)); [intros [= _ <-]; reflexivity|].
+    destruct (enqueue (set_finished x) (x_dig x, StDone ok tag)). intros [= _ <-]. reflexivity.
+  - destruct (x_finished x && negb (is_some (x_pending x)) && negb (x_closed x)); intros [= _ <-]; reflexivity.
+Qed.
+
+Lemma no_ready_app a b : no_ready (a ++ b) = no_ready a && no_ready b.
+Proof. apply forallb_app. Qed.
+
+Lemma xsteps_no_ready es : forall x x' o, xsteps x es = (x', o) -> no_ready o = true.
+Proof.
+  induction es as [|e r IH]; intros x x' o H; cbn [xsteps] in H.
+  - injection H as _ <-. reflexivity.
+  - destruct (xstep x e) as [x1 o1] eqn:E1. destruct (xsteps x1 r) as [x2 o2] eqn:E2.
+    injection H as _ <-. rewrite no_ready_app, (xstep_no_ready _ _ _ _ E1), (IH _ _ _ E2). reflexivity.
+Qed.
+
+Lemma phase_updates_no_ready rep next now sl sel rep' next' sl' o :
+  phase_updates rep next now sl sel = (rep', next', sl', o) -> no_ready o = true.
+Proof.
+  unfold phase_updates. destruct sl as [x|]; [|intros [= _ _ _ <-]; reflexivity].
+  destruct (if avail x then (x, []) else xsteps x sel) as [x1 o2] eqn:Ex.
+  assert (H2 : no_ready o2 = true).
+  { destruct (avail x); [injection Ex as _ <-; reflexivity|eapply xsteps_no_ready; exact Ex]. }
+  destruct (recv x1) as [[| |[d st]] x2].
+  - intros [= _ _ _ <-]. exact H2.
+  - intros [= _ _ _ <-]. exact H2.
+  - destruct (consume (consume_fuel x2) (RExec d st) x2). intros [= _ _ _ <-]. exact H2.
+Qed.
+
 (* ---- single outputs of Run --------------------------------------------------------- *)
 
 Lemma chk_all_OReady c m : chk_all c m OReady = ""%string.
@@ -365,10 +412,11 @@ Qed.
 Lemma chk_all_OSync c rep sl m until prefer :
   Inv rep sl m ->
   (m_owes m = true -> rep = RIdle -> is_some until = true) ->
+  (is_some until = false -> m_ready m = true) ->
   prefer = (if ctx_shutdown c then true else fst (prefer_of rep until)) ->
   chk_all c m (OSync rep prefer true) = ""%string.
 Proof.
-  intros Hinv Ho Hp. pose proof (proj2 Hinv) as Howes.
+  intros Hinv Ho Hrd Hp. pose proof (proj2 Hinv) as Howes.
   unfold chk_all. cbn [chk_one_executor].
   assert (H2 : chk_report_honest c m (OSync rep prefer true) = ""%string).
   { destruct (Inv_cur _ _ _ Hinv) as [[-> Hl]|(cu & d & st & -> & Hc & Hh)].
@@ -377,12 +425,16 @@ Proof.
       rewrite Hd, Hs. reflexivity. }
   assert (H3 : chk_idle_after_failure c m (OSync rep prefer true) = ""%string).
   { unfold chk_idle_after_failure. subst prefer. destruct (ctx_shutdown c).
-    - cbn. rewrite !andb_false_r. reflexivity.
+    - cbn. rewrite !andb_false_r. destruct rep; reflexivity.
     - destruct (is_failed rep) eqn:F.
       + destruct rep as [|d [| |[] t]]; cbn in F; try discriminate. cbn. rewrite !andb_false_r. reflexivity.
-      + cbn [andb negb]. destruct (m_owes m) eqn:O; [|reflexivity].
-        destruct (Howes eq_refl) as [->|F']; [|congruence].
-        cbn. rewrite (Ho eq_refl eq_refl). reflexivity. }
+      + cbn [andb negb].
+        assert (Hidle : rep = RIdle -> negb (fst (prefer_of rep until)) && negb (m_ready m) = false).
+        { intros ->. cbn. destruct (is_some until) eqn:U; [reflexivity|]. rewrite (Hrd eq_refl). reflexivity. }
+        destruct (m_owes m) eqn:O.
+        * destruct (Howes eq_refl) as [->|F']; [|congruence].
+          cbn. rewrite (Ho eq_refl eq_refl). reflexivity.
+        * cbn [andb]. destruct rep as [|d st]; [rewrite (Hidle eq_refl); reflexivity|reflexivity]. }
   assert (H4 : chk_shutdown c m (OSync rep prefer true) = ""%string).
   { unfold chk_shutdown. subst prefer. destruct (ctx_shutdown c); reflexivity. }
   rewrite H2, H3, H4. reflexivity.
@@ -450,6 +502,7 @@ Proof.
   intros Hinv Hr Hob. set (c := mkCtx (ERun r) ob). set (m0 := item_begin m).
   assert (Hinv0 : Inv (s_rep s) (s_slot s) m0) by (apply Inv_item_begin; exact Hinv).
   assert (Hs0 : m_synced m0 = false) by reflexivity.
+  assert (Hr0 : m_ready m0 = false) by reflexivity.
   assert (Hsh : ctx_shutdown c = r_shutdown r) by reflexivity.
   assert (Hnow : ctx_now c = r_now r) by reflexivity.
   assert (Hobs : k_obs c = ob) by reflexivity.
@@ -468,7 +521,8 @@ Proof.
     injection Hr as <- <-. apply andb_true_iff in E1 as [E1a E1b].
     apply negb_true_iff in E1a, E1b.
     assert (Hm1 : mon_next c m0 OReady = m0).
-    { cbn [mon_next]. change (ctx_ready c) with (r_ready r). rewrite E1b. destruct m0; reflexivity. }
+    { cbn [mon_next]. change (ctx_ready c) with (r_ready r). rewrite E1b.
+      destruct m0; cbn in Hr0; rewrite Hr0; reflexivity. }
     cbn [chk_outs mon_outs]. rewrite chk_all_OReady, Hm1. cbn [cat2 is_empty].
     rewrite chk_all_ORet, mon_next_ORet_keep; try (intros; congruence).
     - split; [reflexivity|exact Hinv0].
@@ -488,22 +542,25 @@ Proof.
   assert (H1 : chk_outs chk_all c m0 o1 = ""%string
                /\ Inv (s_rep s) (s_slot s) (mon_outs c m0 o1)
                /\ m_synced (mon_outs c m0 o1) = false
-               /\ (m_owes (mon_outs c m0 o1) = true -> is_some (s_until s) = true)).
+               /\ (m_owes (mon_outs c m0 o1) = true -> is_some (s_until s) = true)
+               /\ (is_some (s_until s) = false -> m_ready (mon_outs c m0 o1) = true)).
   { subst o1. destruct (is_some (s_until s)) eqn:U; cbn [negb].
-    - cbn. auto.
+    - cbn. split; [reflexivity|]. split; [exact Hinv0|]. split; [exact Hs0|]. split; [reflexivity|discriminate].
     - cbn [negb andb] in E1. apply negb_false_iff in E1.
       cbn [chk_outs mon_outs]. rewrite chk_all_OReady. split; [reflexivity|].
       split; [eapply Inv_ext; [| | |exact Hinv0]; cbn; auto|].
       + change (ctx_ready c) with (r_ready r). rewrite E1. discriminate.
-      + split; [exact Hs0|]. cbn. change (ctx_ready c) with (r_ready r). rewrite E1. discriminate. }
-  destruct H1 as (Hc1 & Hi1 & Hs1 & Hu1). set (m1 := mon_outs c m0 o1) in *.
+      + split; [exact Hs0|]. cbn. change (ctx_ready c) with (r_ready r). rewrite E1. split; [discriminate|reflexivity]. }
+  destruct H1 as (Hc1 & Hi1 & Hs1 & Hu1 & Hrd1). set (m1 := mon_outs c m0 o1) in *.
   (* o2 *)
   destruct (phase_updates_ok c _ _ _ _ _ _ _ _ _ _ Hi1 Ep) as (Hc2 & Hi2 & Ho2 & Hs2).
   set (m2 := mon_outs c m1 o2) in *.
   (* OSync *)
   assert (Hc3 : chk_all c m2 (OSync rep prefer true) = ""%string).
-  { eapply chk_all_OSync; [exact Hi2| |].
+  { eapply chk_all_OSync; [exact Hi2| | |].
     - intros Ho _. apply Hu1. rewrite <- Ho2. exact Ho.
+    - intros U. unfold m2. rewrite (mon_outs_ready c o2 m1 (phase_updates_no_ready _ _ _ _ _ _ _ _ _ Ep)).
+      apply Hrd1. exact U.
     - subst prefer. rewrite Hsh, Epf. reflexivity. }
   destruct (Inv_sync c _ _ _ prefer true Hi2) as [Hi3 Hs3].
   set (m3 := mon_next c m2 (OSync rep prefer true)) in *.
@@ -858,4 +915,28 @@ Proof.
   assert (G : forall evs s, chan_ok_opt (s_slot s) -> chan_ok_opt (s_slot (run s evs))).
   { induction evs0 as [|e r IH]; intros s H; cbn [run]; [exact H|]. apply IH, step_chan_ok, H. }
   apply G. exact I.
+Qed.
+
+(* ---- the end-of-item check ------------------------------------------------------------ *)
+
+Lemma end_trace_gen evs : forall s m,
+  Inv (s_rep s) (s_slot s) m -> quiet s -> end_trace m (trace s evs) = ""%string.
+Proof.
+  induction evs as [|e r IH]; intros s m Hinv Hq; cbn [trace end_trace]; [reflexivity|].
+  destruct (step s e) as [s' o] eqn:Es. cbn [end_trace ctx_of i_ev i_outs i_obs].
+  destruct (step_ok _ _ _ _ _ Hinv Es) as [_ Hi].
+  pose proof (step_quiet s m e Hinv Hq) as Hq'. rewrite Es in Hq'. cbn [fst] in Hq'.
+  change (ctx_of (mkItem e o (observe s'))) with (mkCtx e (observe s')).
+  set (m' := mon_outs (mkCtx e (observe s')) (item_begin m) o) in *.
+  assert (Hend : chk_end (mkCtx e (observe s')) m' = ""%string).
+  { unfold chk_end. cbn [k_obs observe o_until]. destruct (s_until s') eqn:U; [reflexivity|].
+    specialize (Hq' U). destruct Hi as [Hi _]. destruct (s_slot s') as [x|].
+    - destruct Hi as (Hl & _). rewrite Hq' in Hl. rewrite Hl. reflexivity.
+    - destruct Hi as (Hl & _). rewrite Hl. reflexivity. }
+  rewrite Hend. cbn [cat2 is_empty]. apply IH; assumption.
+Qed.
+
+Lemma until_nil_means_idle_holds t0 evs : end_ok (trace (init t0) evs) = true.
+Proof.
+  unfold end_ok. apply is_empty_true. apply end_trace_gen; [apply Inv_init|]. intros _. exact I.
 Qed.
